@@ -25,6 +25,7 @@ type C16 struct {
 	Keyless bool  // a fifth bonded validator E that never registered keys
 	Rotate  bool  // validator A may register new keys (MsgDelegateKeys again) after it has confirmed
 	Many    bool  // start from more than 100 pending batches on one chain (more than one page of a paginated walk)
+	PerChain bool // validator B has one orchestrator account on ethereum and another one on bsc
 	Heights bool  // external heights are observed (deposits claimed by all bonded validators), so batches carry real timeouts
 }
 
@@ -34,6 +35,21 @@ func NewC16() *C16 {
 }
 
 func (c *C16) ID() string             { return "C16" }
+
+// orchOn: the orchestrator account validator i registered for the chain.
+func (c *C16) orchOn(i int, chain string) sdk.AccAddress {
+	if c.PerChain && i == 1 && chain == "bsc" {
+		return hub.User("B-orchestrator-on-bsc")
+	}
+	return c.Vals[i].Orch
+}
+
+func otherChain(chain string) string {
+	if chain == "ethereum" {
+		return "bsc"
+	}
+	return "ethereum"
+}
 func (c *C16) Setup(in *hub.Instance) {}
 func (c *C16) SeedPaths() [][]engine.Op {
 	if c.Base > 0 {
@@ -66,6 +82,16 @@ func (c *C16) Genesis() hub.Genesis {
 	}
 	for _, es := range g.Hub.ExternalStates {
 		es.LastOutgoingBatchTxNonce = c.Base
+		if c.PerChain {
+			for _, dk := range es.DelegateKeys {
+				if dk.ValidatorAddress == c.Vals[1].Oper.String() {
+					dk.OrchestratorAddress = c.orchOn(1, es.ChainId).String()
+				}
+			}
+		}
+	}
+	if c.PerChain {
+		g.Accounts = append(g.Accounts, c.orchOn(1, "bsc"))
 	}
 	return g
 }
@@ -114,6 +140,12 @@ func (c *C16) Ops(s *HState) []engine.Op {
 			ops = append(ops, engine.OpN("Confirm", ch, 0, 1, ref, 1)) // claims B's external address
 		}
 		ops = append(ops, engine.OpN("Confirm", ch, 0, 2, 0, 0)) // stranger
+		if c.PerChain {
+			// B's confirmation sent by the account that is B's orchestrator on the OTHER chain only
+			for ref := 0; ref < 5; ref++ {
+				ops = append(ops, engine.OpN("Confirm", ch, 1, 3, ref, 0))
+			}
+		}
 		ops = append(ops, engine.OpN("Confirm", ch, 0, 0, 0, 4), engine.OpN("Confirm", ch, 0, 0, 2, 4)) // an empty signature
 		if c.Keyless {
 			// E has no registered external address: it claims the zero address / A's address as signer
@@ -242,9 +274,9 @@ func (c *C16) Do(in *hub.Instance, gg Ghost, op engine.Op, st *engine.Step) {
 		ch := op.S[0]
 		n := in.Hub.GetLastObservedEventNonce(in.Ctx(), mhubtypes.ChainID(ch)) + 1
 		ev := &mhubtypes.SendToHubEvent{EventNonce: n, ExternalCoinId: tokenOn(ch), Amount: sdk.NewInt(5), Sender: hub.HexAddr("dep"), CosmosReceiver: c.User.String(), ExternalHeight: uint64(op.I[0]) + n, TxHash: fmt.Sprintf("0xc16dep%d", n)}
-		for i, v := range c.Vals {
+		for i := range c.Vals {
 			if i < len(in.Staking.Vals) && in.Staking.Vals[i].Bonded {
-				in.DeliverMsg(hub.EventMsg(v.Orch, ch, ev))
+				in.DeliverMsg(hub.EventMsg(c.orchOn(i, ch), ch, ev))
 			}
 		}
 		st.Obs = "dep"
@@ -306,9 +338,11 @@ func (c *C16) confirm(in *hub.Instance, g *c16Ghost, op engine.Op, st *engine.St
 	signer := val.Acc
 	switch kind {
 	case 1:
-		signer = val.Orch
+		signer = c.orchOn(int(v), chain)
 	case 2:
 		signer = c.Stranger
+	case 3:
+		signer = c.orchOn(int(v), otherChain(chain))
 	}
 	ext := val.Eth.Hex()
 	if claim == 1 {
@@ -369,6 +403,9 @@ func (c *C16) confirm(in *hub.Instance, g *c16Ghost, op engine.Op, st *engine.St
 	}
 	if kind == 2 {
 		st.Violate("C16", "confirmation_recorded_from_unknown_account", "getSignerValidator", "op %s", op)
+	}
+	if kind == 3 {
+		st.Violate("C16", "confirmation_recorded_from_orchestrator_of_another_chain", "getSignerValidator", "op %s: %s is %s's orchestrator on %s only; on %s it is neither a validator nor anybody's orchestrator", op, signer, val.Name, otherChain(chain), chain)
 	}
 	if !in.Staking.Vals[v].Bonded {
 		st.Violate("C16", "confirmation_recorded_from_unbonded_validator", "getSignerValidator", "op %s", op)
@@ -515,26 +552,36 @@ func (c *C16) queries(in *hub.Instance, g *c16Ghost, st *engine.Step) {
 				return false
 			})
 			var gotSS, gotB, gotC []string
-			if r, err := in.Hub.UnsignedSignerSetTxs(wctx, &mhubtypes.UnsignedSignerSetTxsRequest{Address: v.Orch.String(), ChainId: chain}); err == nil {
+			if r, err := in.Hub.UnsignedSignerSetTxs(wctx, &mhubtypes.UnsignedSignerSetTxsRequest{Address: c.orchOn(vi, chain).String(), ChainId: chain}); err == nil {
 				for _, x := range r.SignerSets {
 					gotSS = append(gotSS, fmt.Sprint(x.Nonce))
 				}
 			} else {
 				gotSS = []string{"err:" + err.Error()}
 			}
-			if r, err := in.Hub.UnsignedBatchTxs(wctx, &mhubtypes.UnsignedBatchTxsRequest{Address: v.Orch.String(), ChainId: chain}); err == nil {
+			if r, err := in.Hub.UnsignedBatchTxs(wctx, &mhubtypes.UnsignedBatchTxsRequest{Address: c.orchOn(vi, chain).String(), ChainId: chain}); err == nil {
 				for _, x := range r.Batches {
 					gotB = append(gotB, fmt.Sprint(x.BatchNonce))
 				}
 			} else {
 				gotB = []string{"err:" + err.Error()}
 			}
-			if r, err := in.Hub.UnsignedContractCallTxs(wctx, &mhubtypes.UnsignedContractCallTxsRequest{Address: v.Orch.String(), ChainId: chain}); err == nil {
+			if r, err := in.Hub.UnsignedContractCallTxs(wctx, &mhubtypes.UnsignedContractCallTxsRequest{Address: c.orchOn(vi, chain).String(), ChainId: chain}); err == nil {
 				for _, x := range r.Calls {
 					gotC = append(gotC, fmt.Sprint(x.InvalidationNonce))
 				}
 			} else {
 				gotC = []string{"err:" + err.Error()}
+			}
+			if c.PerChain && vi == 1 {
+				// the account that is B's orchestrator on the other chain only speaks for nobody here
+				foreign := c.orchOn(vi, otherChain(chain)).String()
+				_, e1 := in.Hub.UnsignedSignerSetTxs(wctx, &mhubtypes.UnsignedSignerSetTxsRequest{Address: foreign, ChainId: chain})
+				_, e2 := in.Hub.UnsignedBatchTxs(wctx, &mhubtypes.UnsignedBatchTxsRequest{Address: foreign, ChainId: chain})
+				_, e3 := in.Hub.UnsignedContractCallTxs(wctx, &mhubtypes.UnsignedContractCallTxsRequest{Address: foreign, ChainId: chain})
+				if e1 == nil || e2 == nil || e3 == nil {
+					st.Violate("C16", "unsigned_query_answers_orchestrator_of_another_chain", "getSignerValidator", "chain %s: %s (B's orchestrator on %s only) is answered with a validator's unsigned lists (errors: %v %v %v)", chain, foreign, otherChain(chain), e1, e2, e3)
+				}
 			}
 			for _, p := range []struct {
 				n    string
@@ -581,12 +628,15 @@ func init() {
 		rot := NewC16()
 		rot.Rotate = true
 		rot.Chains = []string{"ethereum"}
+		pc := NewC16()
+		pc.PerChain = true
 		kl := NewC16()
 		kl.Keyless = true
 		kl.Chains = []string{"ethereum"}
 		kl.Vals = append(kl.Vals, hub.NewValidator("E"))
 		return []MultiCase{{Name: "fresh chain", Spec: NewC16(), Cfg: cfg}, {Name: "batch nonces 254..256", Spec: hi, Cfg: cfg},
 				{Name: "a bonded validator that never registered keys", Spec: kl, Cfg: cfg},
+				{Name: "validator B with one orchestrator account per chain", Spec: pc, Cfg: cfg},
 				{Name: "validator A registers new keys after confirming", Spec: rot, Cfg: cfg},
 				{Name: "observed external heights, a batch with a real timeout", Spec: hts, Cfg: cfg},
 				{Name: "101 pending batches of one token", Spec: mny, Cfg: cfgMany},
